@@ -820,6 +820,14 @@ def direct_connect_outputs(block=None):
     # NOTE: would use transform.all_nets(), but it becomes tricky when
     # we want to remove more than just the current net on a single pass
     block = working_block(block)
+    # Retargeting a 'w' net onto an Output can make that net's own producer
+    # eligible in turn, so repeat until a pass changes nothing.
+    while _direct_connect_outputs_pass(block):
+        pass
+
+
+def _direct_connect_outputs_pass(block):
+    """ Do one pass of direct_connect_outputs; returns True if the block was changed. """
     _, dst_nets = block.net_connections()
 
     nets_to_remove = set()
@@ -853,6 +861,7 @@ def direct_connect_outputs(block=None):
     block.logic.update(nets_to_add)
     for w in wirevectors_to_remove:
         block.remove_wirevector(w)
+    return bool(nets_to_remove)
 
 
 def _make_tree(wire, block, curr_fanout):
